@@ -235,7 +235,8 @@ fn check(id: &str, tier: &str) -> i32 {
 			"known_findings_reported": known_hits,
 		},
 	});
-	let evdir = verif_root().join("evidence");
+	// runs against deliberately mutated trees (bin/seedtest) must not overwrite the evidence
+	let evdir = std::env::var("PDBV_EVIDENCE_DIR").map(PathBuf::from).unwrap_or_else(|_| verif_root().join("evidence"));
 	let _ = std::fs::create_dir_all(&evdir);
 	let _ = std::fs::write(evdir.join(format!("{id}.json")), serde_json::to_string_pretty(&evidence).unwrap());
 
